@@ -65,6 +65,9 @@ def apply_bar(b, a, k=0, shared=None):
     if op == "place_at":
         b.place_notes_at(content(a["arg"], "list"), b.bar[a["i"] - 1][0])
         return True
+    if op == "place_at_beat":
+        b.place_notes_at(content(a["arg"], "list"), a["beat"])       # an int: the beat, as the method's name says
+        return True
     if op == "set_meter":
         b.set_meter((a["count"], a["unit"]))
         return True
